@@ -63,11 +63,15 @@ class NoiseDevice:
     def read_client_hello(self, data: bytes) -> bool:
         """data = the client's first write (NOISE_HELLO + handshake frame). Returns True iff the
         client's handshake message authenticated under our psk."""
-        assert data[:3] == b"\x01\x00\x00", data[:3]
-        assert data[3] == 1
+        import common
+        if data[:3] != b"\x01\x00\x00" or data[3:4] != b"\x01":
+            raise common.LibraryMisbehaved("malformed-noise-hello", f"the client's first write does not start with the empty hello frame and a "
+                                           f"handshake frame: {bytes(data[:8]).hex()}")
         n = int.from_bytes(data[4:6], "big")
         body = data[6 : 6 + n]
-        assert len(body) == n and body[0] == 0
+        if len(body) != n or body[:1] != b"\x00":
+            raise common.LibraryMisbehaved("malformed-noise-hello", f"the client's handshake frame announces {n} bytes, {len(body)} follow, first byte "
+                                           f"{body[:1].hex()}")
         try:
             self.proto.read_message(body[1:])
             self.hs_ok = True
